@@ -86,6 +86,9 @@ package kernel
 //@   ensures [nonecounted] (NoList(node.nodeStateSequences, timestamp) || (exists i int :: ListIdx(node.nodeStateSequences, timestamp, i) &&
 //@       (forall k int :: 0 <= k && k < len(node.nodeStateSequences[i].NodesWithoutState) ==> !Counted(node, node.nodeStateSequences[i].NodesWithoutState[k], timestamp, final))))
 //@       ==> result == 1000
+//@   -- C24 names the value: ThresholdAt(node, timestamp, final) (zz_contracts_c24_verif.go). ASSUMED, not verified against the body: the threshold is a
+//@   -- function of the node object, the timestamp and `final` while one expiry pass runs (the membership view is not written by that pass).
+//@   assumes result == ThresholdAt(node, timestamp, final)
 //@   loop 0 invariant 0 <= consensusBase && consensusBase <= rangeindex + 1
 //@   loop 0 invariant [exact0] (forall k int :: 0 <= k && k <= rangeindex ==> (Excluded(removing, nodes[k]) || !Counted(node, nodes[k], timestamp, final))) ==> consensusBase == 0
 //@   loop 0 invariant [exact1] (forall k int :: 0 <= k && k <= rangeindex ==> (!Excluded(removing, nodes[k]) && Counted(node, nodes[k], timestamp, final))) ==> consensusBase == rangeindex + 1
